@@ -64,7 +64,8 @@ def _mkgraph(store_kind, desc, F, args, kind_of=None):
     i = 0
     for j, pn in enumerate(desc["data"]):
         s = F.iri(args[i])
-        o = F.lit(args[i + 1]) if (desc.get("kinds") and desc["kinds"][j] == "L") else F.iri(args[i + 1])
+        kinds = desc.get("kinds")
+        o = F.lit(args[i + 1]) if (kinds and (kinds == "L" or kinds[j] == "L")) else F.iri(args[i + 1])
         i += 2
         triples.append((s, R.IRIS[pn], o))
     if store_kind == "Memory":
@@ -150,7 +151,26 @@ def body_store(desc, F, *args):
     return None
 
 
-BODIES = {"rewrite": body_rewrite, "initbindings": body_initbindings, "prepared": body_prepared, "store": body_store}
+def body_prepared_init(desc, F, *args):
+    """one prepared query object: evaluated with initBindings, then without — the second must equal a fresh query's answer"""
+    from rdflib.plugins.sparql.evaluate import evalQuery
+    g, i = _mkgraph("Memory", desc, F, args)
+    t = (F.lit if desc.get("kinds") == "L" else F.iri)(args[i])
+    q = c04.prepare(desc["text"], [])
+    rows_of(evalQuery(g, q, initBindings={desc["var"]: t}), desc["vars"])
+    a = rows_of(evalQuery(g, q), desc["vars"])
+    b = rows_of(evalQuery(g, c04.prepare(desc["text"], [])), desc["vars"])
+    if not same_rows(a, b):
+        return "a prepared query first run with initBindings answers differently afterwards (%s)" % desc["name"]
+    # and the other way round: a run without must not change a later run with initBindings
+    c = rows_of(evalQuery(g, q, initBindings={desc["var"]: t}), desc["vars"])
+    d = rows_of(evalQuery(g, c04.prepare(desc["text"], []), initBindings={desc["var"]: t}), desc["vars"])
+    if not same_rows(c, d):
+        return "a re-used prepared query with initBindings answers differently from a fresh one (%s)" % desc["name"]
+    return None
+
+
+BODIES = {"prepared-init": body_prepared_init, "rewrite": body_rewrite, "initbindings": body_initbindings, "prepared": body_prepared, "store": body_store}
 
 
 # ----------------------------------------------------------------------------- rewrites
@@ -192,12 +212,12 @@ def obligations(tier, seed):
     def data_for(group, n):
         return c04.data_shapes(group, n)[0]
 
-    def add_rw(name, rewrite, g1, g2, nc, vars1, vars2, ds, text2=None, budget=300):
+    def add_rw(name, rewrite, g1, g2, nc, vars1, vars2, ds, text2=None, budget=300, kinds=None):
         t1 = R.render("select", g1)
         t2 = text2 or R.render("select", g2)
-        obs.append(dict(oid="rw/%s/%s/%s" % (rewrite, name, "".join(ds)), family="rewrite",
+        obs.append(dict(oid="rw/%s/%s/%s%s" % (rewrite, name, "".join(ds), "-L" if kinds else ""), family="rewrite",
                         desc={"name": name, "rewrite": rewrite, "text1": t1, "text2": t2, "vars1": vars1, "vars2": vars2,
-                              "nconst": nc, "data": list(ds)},
+                              "nconst": nc, "data": list(ds), "kinds": kinds},
                         sig=[("x%d" % i, "i") for i in range(2 * len(ds) + nc)], budget=budget))
 
     # 1. every permutation of a BGP's triple patterns
@@ -236,14 +256,18 @@ def obligations(tier, seed):
             sw = [["union", group[0][2], group[0][1]]]
             if not c04.scope_issues(sw):
                 add_rw(name, "swap-union", group, sw, nc, vs, vs, ds)
+                add_rw(name, "swap-union", group, sw, nc, vs, vs, ds, kinds="L")
         if len(group) == 2 and group[0][0] == "group" and group[1][0] == "group":
             sw = [group[1], group[0]]
             if not c04.scope_issues(sw):
                 add_rw(name, "swap-join", group, sw, nc, vs, vs, ds)
+                add_rw(name, "swap-join", group, sw, nc, vs, vs, ds, kinds="L")
+                add_rw(name, "swap-join", group, sw, nc, vs, vs, ds, kinds="L")
         if len(group) == 2 and group[0][0] == "tp" and group[1][0] in ("union", "group", "sub", "values"):
             sw = [group[1], group[0]]
             if not c04.scope_issues(sw):
                 add_rw(name, "swap-join", group, sw, nc, vs, vs, ds)
+                add_rw(name, "swap-join", group, sw, nc, vs, vs, ds, kinds="L")
     # modifiers (C08) under renaming+prefix
     M = c08.modsets()
     for mname in (sorted(M) if tier == "thorough" else ["order-o-s", "distinct-o", "group-count", "group-min", "group-order-alias"]):
@@ -289,9 +313,10 @@ def obligations(tier, seed):
             t1 = R.render("select", bgp)
             t2 = R.render("select", bgp + [["values", [var], [[C(0)]]]])
             ds = data_for(bgp, 2) if len([e for e in bgp if e[0] == "tp"]) < 3 else ["p", "q", "p"]
-            obs.append(dict(oid="init/%s/%s" % (name, var), family="initbindings",
-                            desc={"name": name, "var": var, "text1": t1, "text2": t2, "vars": vs, "data": list(ds)},
-                            sig=[("x%d" % i, "i") for i in range(2 * len(ds) + 1)], budget=300))
+            for kinds in (None, "L"):
+                obs.append(dict(oid="init/%s/%s%s" % (name, var, "-L" if kinds else ""), family="initbindings",
+                                desc={"name": name, "var": var, "text1": t1, "text2": t2, "vars": vs, "data": list(ds), "kinds": kinds},
+                                sig=[("x%d" % i, "i") for i in range(2 * len(ds) + 1)], budget=300))
     # 6. prepared query re-used on G1, G2, G1
     prep = ["bgp2", "optional/o-shared", "optional-filter-both", "union/o-shared", "minus/o-shared", "exists/o-shared", "notexists/s-shared",
             "filter-eq-const", "bind-if", "values-undef", "subselect/o-shared", "subselect-distinct", "bind-after-opt", "opt-opt-seq"]
@@ -304,6 +329,20 @@ def obligations(tier, seed):
         obs.append(dict(oid="prepared/%s" % name, family="prepared",
                         desc={"name": name, "text": R.render("select", group), "vars": vs, "nconst": nc, "data": list(ds)},
                         sig=[("x%d" % i, "i") for i in range(4 * len(ds) + nc)], budget=600))
+    X = V("x")
+    pinit = {
+        "nested-filter": [tp(V("s"), P, X), ["group", [tp(V("s"), Q, V("y")), ["filter", ["=", X, V("y")]]]]],
+        "nested-bind": [tp(V("s"), P, X), ["group", [tp(V("s"), Q, V("y")), ["bind", ["coalesce", X, V("y")], "z"]]]],
+        "optional-filter": [tp(V("s"), P, X), ["opt", [tp(V("s"), Q, V("y")), ["filter", ["!=", X, V("y")]]]]],
+        "filter": [tp(V("s"), P, X), ["filter", ["!=", X, V("s")]]],
+        "exists": [tp(V("s"), P, X), ["filter", ["exists", [tp(X, Q, V("y"))]]]],
+    }
+    for name, group in pinit.items():
+        for kinds in (None, "L"):
+            obs.append(dict(oid="prepared-init/%s%s" % (name, "-L" if kinds else ""), family="prepared-init",
+                            desc={"name": name, "text": R.render("select", group), "vars": R.vars_in_scope(group), "var": "x",
+                                  "data": ["p", "q"], "kinds": kinds},
+                            sig=[("x%d" % i, "i") for i in range(5)], budget=400))
     for mname in ["group-count", "group-min", "order-o-s", "distinct-o"]:
         d1 = {"group": c08.BASES["bgp"], "mods": M[mname]}
         outv = [x if isinstance(x, str) else x[3] for x in M[mname]["select"]]
@@ -352,6 +391,8 @@ def bounds(tier):
                        "applies; C08 modifier sets and C11 depth<=1 paths through SPARQL text" % (len(BGPS), "" if tier == "quick" else "-4",
                                                                                               "60 seeded" if tier == "quick" else "all"),
             "initbindings": "initBindings={?x: t} vs VALUES ?x {t} with t symbolic, x bound by the outermost BGP, over BGP / OPTIONAL / FILTER / UNION templates",
+            "prepared-init": "one prepared Query evaluated with initBindings for ?x and then without (and again with), compared with fresh "
+                             "queries; templates whose nested group / OPTIONAL / FILTER / EXISTS mention ?x",
             "prepared": "one prepared Query evaluated on symbolic G1, G2, G1 (n=2 each), each time compared with a freshly prepared query",
             "store": "Memory vs SimpleMemory, AuditableStore(Memory), ReadOnlyGraphAggregate of two graphs (split by shape)",
             "outside": "query cache of Graph.query (text keyed, concrete), SPARQLStore, n>4"}
